@@ -429,16 +429,11 @@ def in_domain(sels, demand, ints, consts):
         return False
     for pos, s in enumerate(sels):
         uses = OPS[s].uses
+        # arguments an operator does not use are never touched, hence left unconstrained (no branching on them)
         for slot, name in ((2 * pos, 'i'), (2 * pos + 1, 'j')):
-            if name in uses:
-                if not (0 <= ints[slot] <= IMAX):
-                    return False
-            elif ints[slot] != 0:
+            if name in uses and not (0 <= ints[slot] <= IMAX):
                 return False
-        if 'k' not in uses:
-            if consts[pos] != 0:
-                return False
-        elif KMAX is not None and not (-1 <= consts[pos] <= KMAX):
+        if 'k' in uses and KMAX is not None and not (-1 <= consts[pos] <= KMAX):
             return False
     with H.NoTracing():
         try:
@@ -485,10 +480,7 @@ def selection(s2, s3, s4):
 
 def sel_ok(s2, s3, s4):
     for d, s in ((2, s2), (3, s3), (4, s4)):
-        if DEPTH >= d:
-            if s not in S_SETS[d]:
-                return False
-        elif s != 0:
+        if DEPTH >= d and s not in S_SETS[d]:
             return False
     return True
 
@@ -501,8 +493,6 @@ def h_pipe(demand: int, s2: int, s3: int, s4: int, i1: int, j1: int, k1: int, i2
            i3: int, j3: int, k3: int, i4: int, j4: int, k4: int) -> bool:
     """
     pre: sel_ok(s2, s3, s4)
-    pre: (DEPTH >= 3 or (i3 == 0 and j3 == 0 and k3 == 0)) and (DEPTH >= 4 or (i4 == 0 and j4 == 0 and k4 == 0))
-    pre: DEPTH >= 2 or (i2 == 0 and j2 == 0 and k2 == 0)
     pre: in_domain(selection(s2, s3, s4), demand, ints_of(i1, j1, i2, j2, i3, j3, i4, j4), [k1, k2, k3, k4])
     pre: H.fresh(demand, s2, s3, s4, i1, j1, k1, i2, j2, k2, i3, j3, k3, i4, j4, k4)
     post: _
@@ -585,33 +575,33 @@ def conditions(tier, seed):
                                       'lambda constants in -1..4; call API' % (OPS[s1].name,
                                                                                [NAMES[x] for x in thirds[tn]])})
             seventh = LATER[s1 % 7::7]
-            out.append({'name': 'pipe2[%s|seventh%d|text]' % (OPS[s1].name, s1 % 7), 'func': 'h_pipe', 'timeout': 900,
+            if s1 % 2 == 0:
+                out.append({'name': 'pipe2[%s|seventh%d|text]' % (OPS[s1].name, s1 % 7), 'func': 'h_pipe', 'timeout': 900,
                         'param': {'s1': s1, 'depth': 2, 'mode': 'text', 'budget': 10, 'dmax': 2, 'imax': 1,
                                   'kmax': 2, 's2set': seventh},
                         'bounds': '$s.%s.<op2>, op2 by symbolic selector among %s; k in 0..2, ints in 0..1, lambda '
                                   'constants in -1..2; YAQL text, lambdas through tick()' % (
                                       OPS[s1].name, [NAMES[x] for x in seventh])})
-        small = [NAMES.index(x) for x in ('select', 'where', 'skip', 'take', 'takeWhile', 'distinct', 'memorize',
-                                          'insert', 'delete', 'first', 'any', 'indexWhere')]
-        for s1 in [NAMES.index(x) for x in ('where', 'select', 'skip', 'selectMany', 'memorize', 'projection')]:
-            for s2 in small:
-                if OPS[s2].terminal:
-                    continue
+        third_ops = [NAMES.index(x) for x in ('where', 'take', 'select', 'delete', 'first', 'any')]
+        for s1 in [NAMES.index(x) for x in ('where', 'select', 'skip', 'projection')]:
+            for s2 in [NAMES.index(x) for x in ('where', 'skip', 'select', 'distinct.key', 'takeWhile')]:
                 out.append({'name': 'pipe3[%s|%s|*]' % (OPS[s1].name, OPS[s2].name), 'func': 'h_pipe', 'timeout': 900,
                             'param': {'s1': s1, 'depth': 3, 'mode': 'api', 'budget': budget, 'dmax': 2, 'imax': 1,
-                                      'kmax': 2, 's2set': [s2], 's3set': small},
+                                      'kmax': 2, 's2set': [s2], 's3set': third_ops},
                             'bounds': '3-operator pipelines $s.%s.%s.<op3>, op3 by symbolic selector among %s; k in '
-                                      '0..2, ints in 0..1' % (OPS[s1].name, OPS[s2].name, [NAMES[x] for x in small])})
-        tiny = [NAMES.index(x) for x in ('where', 'skip', 'take', 'select', 'first', 'any')]
+                                      '0..2, ints in 0..1, lambda constants in -1..2'
+                                      % (OPS[s1].name, OPS[s2].name, [NAMES[x] for x in third_ops])})
+        t3 = [NAMES.index(x) for x in ('where', 'select', 'take')]
+        t4 = [NAMES.index(x) for x in ('take', 'first', 'any')]
         for s1 in [NAMES.index(x) for x in ('where', 'select', 'skip')]:
-            for s2 in [NAMES.index(x) for x in ('where', 'skip', 'select', 'distinct')]:
+            for s2 in [NAMES.index(x) for x in ('where', 'skip')]:
                 out.append({'name': 'pipe4[%s|%s|*|*]' % (OPS[s1].name, OPS[s2].name), 'func': 'h_pipe',
                             'timeout': 900,
-                            'param': {'s1': s1, 'depth': 4, 'mode': 'api', 'budget': budget, 'dmax': 2, 'imax': 1,
-                                      'kmax': 2, 's2set': [s2], 's3set': tiny[:4], 's4set': tiny},
-                            'bounds': '4-operator pipelines $s.%s.%s.<op3>.<op4>, op3/op4 by symbolic selectors among '
-                                      '%s; k in 0..2, ints in 0..1' % (OPS[s1].name, OPS[s2].name,
-                                                                       [NAMES[x] for x in tiny])})
+                            'param': {'s1': s1, 'depth': 4, 'mode': 'api', 'budget': budget, 'dmax': 1, 'imax': 1,
+                                      'kmax': 1, 's2set': [s2], 's3set': t3, 's4set': t4},
+                            'bounds': '4-operator pipelines $s.%s.%s.<op3>.<op4>, op3 among %s, op4 among %s by symbolic '
+                                      'selectors; k in 0..1, ints in 0..1, lambda constants in -1..1'
+                                      % (OPS[s1].name, OPS[s2].name, [NAMES[x] for x in t3], [NAMES[x] for x in t4])})
     return out
 
 
